@@ -802,7 +802,25 @@ func runCli(c cliCase) string {
     command: "echo ok2 >> %[1]s"
   fail:
     command: "echo fail >> %[1]s; exit %[2]d"
+  allow:
+    allow_failure: true
+    command:
+      - "echo allow >> %[1]s; exit %[2]d"
+      - "echo allow2 >> %[1]s"
+  skip:
+    condition: "exit 1"
+    command: "echo skip >> %[1]s"
 pipelines:
+  pallow:
+    - task: ok2
+      name: s1
+    - task: fail
+      name: s2
+      allow_failure: true
+      depends_on: [s1]
+    - task: ok
+      name: s3
+      depends_on: [s2]
   pok:
     - task: ok2
       name: s1
@@ -836,7 +854,10 @@ pipelines:
 	cmd := exec.Command(os.Getenv("VERIF_TASKCTL"), args...)
 	cmd.Dir = dir
 	cmd.Env = []string{"HOME=" + dir, "PATH=/usr/bin:/bin"}
-	out, err := cmd.CombinedOutput()
+	out, err, hung := common.RunWithTimeout(cmd, 60*time.Second)
+	if hung {
+		return "HANG: the process did not exit within 60 s: " + common.HangSummary(string(out))
+	}
 	code := 0
 	if err != nil {
 		if ee, ok := err.(*exec.ExitError); ok {
@@ -858,6 +879,11 @@ pipelines:
 			want = append(want, "ok")
 		case "pok":
 			want = append(want, "ok2")
+		case "allow": // failures were allowed: the target succeeded
+			want = append(want, "allow", "allow2")
+		case "skip": // skipped by its condition: nothing ran, the target did not fail
+		case "pallow": // the failing stage allows failure: its dependant runs, the pipeline succeeded
+			want = append(want, "ok2", "fail", "ok")
 		case "fail":
 			want = append(want, "fail")
 			allOK = false
@@ -884,7 +910,7 @@ pipelines:
 
 func cliUnit(res *common.Result, maxLen int, statuses []int) {
 	flagLen := maxLen - 1 // non-default flag sets: target sequences one shorter than the maximum
-	alphabet := []string{"ok", "fail", "pok", "pfail", "unknown"}
+	alphabet := []string{"ok", "fail", "pok", "pfail", "unknown", "allow", "skip", "pallow"}
 	var idx int64
 	distinct := map[string]bool{}
 	var rec func(cur []string) bool
@@ -892,7 +918,7 @@ func cliUnit(res *common.Result, maxLen int, statuses []int) {
 		// A pipeline listed twice is outside the statement (it says nothing about repeated
 		// targets; today a second occurrence finds its stages already done and runs nothing):
 		// such sequences are not enumerated.
-		npok, npfail := 0, 0
+		npok, npfail, npallow := 0, 0, 0
 		for _, t := range cur {
 			if t == "pok" {
 				npok++
@@ -900,15 +926,18 @@ func cliUnit(res *common.Result, maxLen int, statuses []int) {
 			if t == "pfail" {
 				npfail++
 			}
+			if t == "pallow" {
+				npallow++
+			}
 		}
-		if npok > 1 || npfail > 1 {
+		if npok > 1 || npfail > 1 || npallow > 1 {
 			return false
 		}
 		if len(cur) > 0 {
 			vias := []string{"", "run"}
 			onlyTasks := true
 			for _, t := range cur {
-				if t == "pok" || t == "pfail" {
+				if t == "pok" || t == "pfail" || t == "pallow" {
 					onlyTasks = false
 				}
 			}
@@ -943,7 +972,16 @@ func cliUnit(res *common.Result, maxLen int, statuses []int) {
 						if res.Evaluations%37 == 1 {
 							res.AddSample(c)
 						}
-						if d := runCli(c); d != "" {
+						d := runCli(c)
+						if strings.HasPrefix(d, "HANG:") {
+							// a hang of a real process may depend on timing: it is reported as a violation only if the
+							// very same invocation hangs again; otherwise it is recorded (Engine A decides such cases)
+							if d2 := runCli(c); !strings.HasPrefix(d2, "HANG:") {
+								res.Notes = append(res.Notes, fmt.Sprintf("intermittent_hang: taskctl %v %s %v hung once and finished on re-run: %s", cliFlagSets[c.Flags], c.Via, c.Targets, d))
+								d = d2
+							}
+						}
+						if d != "" {
 							if strings.HasPrefix(d, "infra:") {
 								fmt.Fprintln(os.Stderr, d)
 								os.Exit(2)
